@@ -102,6 +102,9 @@ func genQCfg(rc *RunCtx) QCfg {
 	case "C08":
 	}
 	c.E2E = NewPRNG(rc.Seed^0xe2e).Chance(1, 5) // own stream
+	if tr := NewPRNG(rc.Seed ^ 0x7715); (rc.Prop == "C04" || rc.Prop == "C02" || rc.Prop == "C03") && tr.Chance(1, 4) {
+		c.TLS = true // consumers may upgrade to TLS (the writer stack is rebuilt on the upgrade: buffering must stay as negotiated)
+	}
 	// names that only differ in where a separator stands: topic "t0" with channel "c0", and a topic called
 	// "t0.c0" / "t0_c0" / "t0-c0" (every character a name may contain besides letters and digits) - two
 	// queues that must not share anything, whatever a file or registry key is derived from their names
@@ -405,6 +408,9 @@ func genSub(r *PRNG, c QCfg, prop string) Op {
 			flags |= 1 << 7
 		}
 	}
+	if c.TLS && prop != "C07" && r.Chance(1, 2) {
+		flags |= 1 << 7
+	}
 	flags |= int64(r.Intn(1<<20)) << 8 & 0x7fffffffffff00
 	o.D = flags
 	return o
@@ -418,7 +424,9 @@ func genSpelling(r *PRNG, c QCfg) string {
 		"9223372036854775807", "9223372036854775808", "18446744073709551615", "18446744073709551616", "18446744073710",
 		"18446744073709552", "99999999999999999999999", "184467440737095516160000", "-1", "+5", " 5", "5 ", "abc", "1e3", "0x10", "",
 		fmt.Sprint(max - 1), "36893488147419103232",
-	}[r.Intn(26)]
+		// small numbers written with more than twenty digits
+		"000000000000000000000100", "0000000000000000000000" + fmt.Sprint(max),
+	}[r.Intn(28)]
 }
 
 // ---------------------------------------------------------------- the world
